@@ -2,14 +2,24 @@
 package lalenv
 
 import (
+	"os"
+
 	"github.com/q191201771/naza/pkg/nazalog"
 )
 
 // Quiet silences lal's logger (all lal packages share naza's global logger object). Fatal/Panic
 // level calls keep their behaviour (exit / panic) so that they remain observable.
+//
+// With VERIF_LAL_LOG=trace in the environment the level is trace instead (every log line is formatted
+// and then dropped): lal has code that runs only at that level (hex dumps of received chunks and
+// packets), and the level is a configuration option like any other.
 func Quiet() {
+	lv := nazalog.LevelFatal
+	if os.Getenv("VERIF_LAL_LOG") == "trace" {
+		lv = nazalog.LevelTrace
+	}
 	_ = nazalog.Init(func(o *nazalog.Option) {
-		o.Level = nazalog.LevelFatal
+		o.Level = lv
 		o.IsToStdout = false
 		o.Filename = ""
 		o.AssertBehavior = nazalog.AssertError
